@@ -58,8 +58,9 @@ Qed.
 
 (* add_conn on a table that has no entry for x *)
 Lemma add_conn_fresh t x y : dget spin_eqb x (s_conn t) = None ->
-  exists t', add_conn t x y = Ok t' /\ s_pins t' = s_pins t /\ s_conn t' = s_conn t ++ [(x, y)].
-Proof. intros H. unfold add_conn. rewrite H. eexists. split; [reflexivity|]. split; reflexivity. Qed.
+  exists t', add_conn t x y = Ok t' /\ s_pins t' = s_pins t /\ s_conn t' = s_conn t ++ [(x, y)] /\
+             s_to t' = if nmem (fst y) (s_to t) then s_to t else s_to t ++ [fst y].
+Proof. intros H. unfold add_conn. rewrite H. eexists. split; [reflexivity|]. split; [|split]; reflexivity. Qed.
 
 (* ---- the invariant holds initially and is preserved ---- *)
 Lemma Inv1_empty : Inv1 w_empty.
@@ -86,6 +87,8 @@ Lemma connect_ok_shape s x y :
   exists t1 t2,
     s_conn t1 = s_conn (getst s (fst x)) ++ [(x, y)] /\ s_pins t1 = s_pins (getst s (fst x)) /\
     s_conn t2 = s_conn (getst s (fst y)) ++ [(y, x)] /\ s_pins t2 = s_pins (getst s (fst y)) /\
+    s_to t1 = (if nmem (fst y) (s_to (getst s (fst x))) then s_to (getst s (fst x)) else s_to (getst s (fst x)) ++ [fst y]) /\
+    s_to t2 = (if nmem (fst x) (s_to (getst s (fst y))) then s_to (getst s (fst y)) else s_to (getst s (fst y)) ++ [fst x]) /\
     step s (Connect x y) =
     (setst (setst {| w_structs := w_structs s; w_store := w_store s;
                      w_conns := dset spin_eqb x y (w_conns s); w_clist := w_clist s ++ [x; y];
@@ -97,11 +100,11 @@ Proof.
                 w_conns := dset spin_eqb x y (w_conns s); w_clist := w_clist s ++ [x; y];
                 w_free := remove1 y (remove1 x (w_free s)); w_map := w_map s |}).
   assert (G1 : forall id, getst s1 id = getst s id) by reflexivity.
-  destruct (add_conn_fresh (getst s1 (fst x)) x y) as (t1 & A1 & P1 & C1).
+  destruct (add_conn_fresh (getst s1 (fst x)) x y) as (t1 & A1 & P1 & C1 & T1).
   { rewrite G1. exact (i_tbl s I x Ex). }
-  destruct (add_conn_fresh (getst (setst s1 (fst x) t1) (fst y)) y x) as (t2 & A2 & P2 & C2).
+  destruct (add_conn_fresh (getst (setst s1 (fst x) t1) (fst y)) y x) as (t2 & A2 & P2 & C2 & T2).
   { rewrite getst_setst_other by exact Hne. rewrite G1. exact (i_tbl s I y Ey). }
-  exists t1, t2. rewrite G1 in C1, P1. rewrite getst_setst_other in C2, P2 by exact Hne. rewrite G1 in C2, P2.
+  exists t1, t2. rewrite G1 in C1, P1, T1. rewrite getst_setst_other in C2, P2, T2 by exact Hne. rewrite G1 in C2, P2, T2.
   repeat split; try assumption.
   unfold step. rewrite E0, Ex, Ey, Fx, Fy. cbn [negb orb].
   change (match add_conn (getst s1 (fst x)) x y with
@@ -118,7 +121,7 @@ Qed.
 Theorem connect_atomic s x y s' e : Inv1 s -> step s (Connect x y) = (s', Some e) -> s' = s.
 Proof.
   intros I H. destruct (connect_validation_atomic s x y s' e H) as [E|(E0 & Ex & Ey & Fx & Fy)]; [exact E|].
-  destruct (connect_ok_shape s x y I E0 Ex Ey Fx Fy) as (t1 & t2 & _ & _ & _ & _ & Hs).
+  destruct (connect_ok_shape s x y I E0 Ex Ey Fx Fy) as (t1 & t2 & _ & _ & _ & _ & _ & _ & Hs).
   rewrite Hs in H. discriminate.
 Qed.
 
@@ -139,7 +142,7 @@ Proof.
   destruct (mem y (w_clist s)) eqn:Ey; [simpl in H; rewrite E0, Ex, Ey in H; discriminate|].
   destruct (mem x (w_free s)) eqn:Fx; [|simpl in H; rewrite E0, Ex, Ey, Fx in H; discriminate].
   destruct (mem y (w_free s)) eqn:Fy; [|simpl in H; rewrite E0, Ex, Ey, Fx, Fy in H; discriminate].
-  destruct (connect_ok_shape s x y I E0 Ex Ey Fx Fy) as (t1 & t2 & C1 & P1 & C2 & P2 & Hs).
+  destruct (connect_ok_shape s x y I E0 Ex Ey Fx Fy) as (t1 & t2 & C1 & P1 & C2 & P2 & _ & _ & Hs).
   rewrite Hs in H. injection H as <-.
   assert (Hne : fst y <> fst x) by (apply Nat.eqb_neq in E0; congruence).
   set (s1 := {| w_structs := w_structs s; w_store := w_store s;
